@@ -276,7 +276,8 @@ Qed.
 Theorem months_diff_refl a : months_diff a a = 0.
 Proof.
   unfold months_diff. rewrite moment_lt_irrefl. destruct a as [[[y m] d] t]. unfold months_between.
-  rewrite !Z.ltb_irrefl, Z.eqb_refl. cbn [andb]. lia.
+  rewrite Z.ltb_irrefl, Z.eqb_refl. replace ((t / 3600 - t / 3600) * 3600 + (t / 60 mod 60 - t / 60 mod 60) * 0 + (t mod 60 - t mod 60)) with 0 by lia.
+  cbn. lia.
 Qed.
 
 Theorem months_diff_antisym a b : moment_lt a b = true -> months_diff b a = - months_diff a b.
@@ -309,8 +310,9 @@ Proof.
     cbn [orb andb]. destruct (tm =? m); [|reflexivity]. destruct (d =? d); reflexivity. }
   unfold months_diff. cbv beta iota.
   match goal with |- (if ?c then _ else _) = _ => replace c with false by (symmetry; exact Hlt) end.
-  unfold months_between. rewrite Z.ltb_irrefl, Z.eqb_refl, Z.ltb_irrefl. cbn [andb].
-  unfold ty, tm, total in *. lia.
+  unfold months_between. rewrite Z.ltb_irrefl, Z.eqb_refl.
+  replace ((t / 3600 - t / 3600) * 3600 + (t / 60 mod 60 - t / 60 mod 60) * 0 + (t mod 60 - t mod 60)) with 0 by lia.
+  cbn [andb Z.ltb Z.compare]. unfold ty, tm, total in *. lia.
 Qed.
 
 (* ---------- CAST('YYYY-MM-DD' AS DATE) ---------- *)
@@ -318,3 +320,8 @@ Theorem cast_date_valid_exact y m d : valid_date (y, m, d) = true -> cast_date_s
 Proof. intros H. unfold cast_date_str. now rewrite H. Qed.
 Lemma cast_date_misparses : cast_date_str 2023 2 30 = (2023, 2, 3) /\ valid_date (2023, 2, 30) = false.
 Proof. split; vm_compute; reflexivity. Qed.
+
+(* the minutes are ignored when both moments fall on the same day of the month: 12:22:47 -> 12:38:15 counts as -1 month *)
+Lemma months_diff_ignores_minutes :
+  months_diff ((1950, 4, 29), 44567) ((1950, 4, 29), 45495) = -1.
+Proof. vm_compute. reflexivity. Qed.
